@@ -1,9 +1,9 @@
 #!/bin/bash
 # usage: tools/verify_batch.sh <ID>   -> verifies every /tmp/seeded/<ID>/m*/ in a scratch worktree; result lines in /tmp/seeded/<ID>/verify.txt
 ID="$1"
-OUT=/tmp/seeded/$ID/verify.txt
+OUT=${SEEDED_BASE:-/tmp/seeded}/$ID/verify.txt
 : > "$OUT"
-for d in /tmp/seeded/$ID/m*/; do
+for d in ${SEEDED_BASE:-/tmp/seeded}/$ID/m*/; do
   [ -f "$d/patch.diff" ] || continue
   r=$(/verif/tools/verify_seeded.sh "$d" 2>&1 | tail -1)
   echo "$(basename $d) $r" >> "$OUT"
